@@ -491,6 +491,11 @@ class HierDictDocument(DictDocument):
 
                         return None
 
+                    if subinst is None:
+                        # a null entry is not an object without any members
+                        retval.append(None)
+                        continue
+
                     retval.append(self._to_dict_value(cls, subinst, tags,
                                                       cls_orig=cls_orig or cls))
 
